@@ -24,7 +24,9 @@ def main():
         meta_in = json.load(open(os.path.join(src, "meta.json")))
     except Exception as e:
         meta_in = {"error": "meta.json unreadable: %s" % e}
-    out = os.path.join(V, "seeded", "%s-%s" % (pid, n))
+    rnd = os.environ.get("SEED_ROUND", "")
+    tag = "%s-%s%s" % (pid, (rnd + "-") if rnd else "", n)
+    out = os.path.join(V, "seeded", tag)
     os.makedirs(out, exist_ok=True)
     shutil.copy(patch, os.path.join(out, "patch.diff"))
     for f in ("demo.rs",):
@@ -43,7 +45,7 @@ def main():
     if skip:
         # keep what an earlier full run established (confirmation in the agent's worktree; which checks
         # reported the change *before* any rule was strengthened because of it)
-        log = "/var/tmp/seedlogs/%s-%s.log" % (pid, n)
+        log = "/var/tmp/seedlogs/%s.log" % tag
         try:
             t = open(log).read()
             d0 = json.loads(t[t.index("{"):])
@@ -103,6 +105,6 @@ def main():
             "detected": bool(results) and "error" not in results,
             "detected_by_own_property": pid in results}
     json.dump(meta, open(os.path.join(out, "meta.json"), "w"), indent=1)
-    print(json.dumps({"seed": "%s-%s" % (pid, n), "confirm": {k: v for k, v in confirm.items() if "tail" not in k}, "detected_by": results}, indent=1)[:3000])
+    print(json.dumps({"seed": tag, "confirm": {k: v for k, v in confirm.items() if "tail" not in k}, "detected_by": results}, indent=1)[:3000])
 
 main()
